@@ -881,6 +881,85 @@ def check_C12(tier, seed):
                    "per-type files = emitted .c/.h files that are not copies of skeleton files"])
 
 
+# ---- adversarial depth / length (C15) -----------------------------------------------------------------
+def check_C15(tier, seed):
+    t0 = time.time()
+    res = Result("C15")
+    known = lib.load_findings("C15")
+    depths = "{1, 3, 6, 100, 1000, 10000, 100000}" if tier == "quick" else "{1, 2, 3, 4, 5, 6, 10, 100, 300, 1000, 3000, 10000, 30000, 100000}"
+    limits = "{0, 100000}" if tier == "quick" else "{0, 10000, 100000, 1000000}"
+    consts = ["Depths = " + depths, "Limits = " + limits]
+    mod, scns, st = lib.generate("MC_Deep", consts, ["DeepIsEncoding", "DExport"], init="DInit", next_="DNext", workers=2)
+    res.states += st["distinct"]
+    res.transitions += st["states"]
+    rc, out, _ = lib.run_tlc("MC_Mod", "", names=False)
+    mj = [m for m in lib.tlc_payload(out, "MOD") if m["name"] == "VE"][0]
+    M = Module(mj)
+    for san in (("plain",) if tier == "quick" else ("plain", "asan")):
+        b = lib.build_module(M, san=san)
+        if not b.ok:
+            raise Infra("build failed: " + b.err)
+        import subprocess, tempfile, shutil
+        work = tempfile.mkdtemp(prefix="c15-", dir=lib.SCRATCH)
+        evs = []
+        try:
+            for s in scns:
+                sp, ep = os.path.join(work, "s"), os.path.join(work, "e")
+                segs = " ".join("%dx%s" % (g["n"], bytes(g["b"]).hex()) for g in s["segs"])
+                open(sp, "w").write("S %d %s\nDG 1 %s %d %s\n" % (s["id"], s["ty"], s["syn"], s.get("limit", 0), segs))
+                env = dict(os.environ, ASAN_OPTIONS="detect_leaks=0:abort_on_error=1:detect_stack_use_after_return=0", UBSAN_OPTIONS="halt_on_error=1:abort_on_error=1")
+                try:
+                    r = subprocess.run("ulimit -s 8192; exec %s %s %s" % (b.driver, sp, ep), shell=True, stdout=subprocess.PIPE, stderr=subprocess.STDOUT,
+                                       text=True, errors="replace", timeout=120, env=env)
+                    rc_, tail = r.returncode, r.stdout[-400:]
+                except subprocess.TimeoutExpired:
+                    rc_, tail = -14, "timeout"
+                got = []
+                if os.path.exists(ep):
+                    for line in open(ep, errors="replace"):
+                        try:
+                            got.append(json.loads(line))
+                        except ValueError:
+                            pass
+                big = [e for e in got if e.get("a") in ("DecodeBig", "Crash", "Timeout")]
+                if big:
+                    e = big[-1]
+                    e["id"] = s["id"]
+                    evs.append(e)
+                else:
+                    evs.append({"id": s["id"], "a": "Timeout" if rc_ == -14 else "Crash", "sig": rc_, "detail": tail})
+        finally:
+            shutil.rmtree(work, ignore_errors=True)
+        mism, tot = lib.judge("MC_Deep", None, scns, evs, constants=consts, shards=2)
+        mism = expand(mism)
+        res.states += tot["distinct"]
+        res.transitions += tot["states"]
+        res.sessions += len(scns)
+        res.events += len(evs)
+        byid = {s["id"]: s for s in scns}
+        evid = {e["id"]: e for e in evs}
+        for s in scns:
+            res.distinct.add((s["ty"], s["syn"], s["kind"], s.get("depth"), s.get("limit"), san))
+        res.samples.append({"scenario": scns[len(scns) // 3], "event": evid[scns[len(scns) // 3]["id"]], "build": san})
+        for m in mism:
+            s = byid[m["id"]]
+            sig = {"op": "deep", "ty": s["ty"], "syn": s["syn"], "kind": s["kind"], "reason": m["reason"], "style": san}
+            f = None
+            for kf in known:
+                for alt in (kf["match"] if isinstance(kf["match"], list) else [kf["match"]]):
+                    mt = {k: v for k, v in alt.items() if k != "pred"}
+                    if mt.get("op") == "deep" and lib.finding_matches({"match": mt}, sig):
+                        f = kf
+            if f:
+                res.known[f["id"]] = res.known.get(f["id"], 0) + 1
+            else:
+                res.violations.append((sig, {"property": "C15", "signature": sig, "scenario": s, "event": evid[m["id"]]}))
+        log("C15 build %s: %d inputs, %d violations so far, %.0fs" % (san, len(scns), len(res.violations), time.time() - t0))
+    return finish(res, tier, seed, "exploration", t0,
+                  "closed-form inputs of spec/MC_Deep.tla: nesting depth {1..6, 100, 1000, 10^4, 10^5} of SEQUENCE OF recursion (BER indefinite, OER, UPER, XER), SEQUENCE recursion (BER, OER) and nested constructed OCTET STRINGs, under the default and caller-supplied stack limits, on an 8 MiB stack; length prefixes of 2^31-1 / 2^30 / 64K fragments with nothing behind them; SEQUENCE OF NULL with maximal counts; the decoder must return (OK / FAIL / WMORE, no fatal signal, no timeout) and its peak heap must stay below 256 * n + 1 MiB for n input octets",
+                  ["MC_Deep.tla: closed forms equal the reference encodings for depth <= 6 (invariant DeepIsEncoding)", "the link-time wrapped allocator supplies the heap peak", "TLC, Json module, python glue"])
+
+
 # ---- unber / enber (C20) ----------------------------------------------------------------------------
 def check_C20(tier, seed):
     import subprocess, tempfile, shutil, re
@@ -1093,7 +1172,7 @@ def check_C10(tier, seed):
 
 
 CHECKS = {"C01": check_C01, "C02": check_C02, "C03": check_C03, "C04": check_C04, "C05": check_C05, "C06": check_C06, "C07": check_C07, "C08": check_C08, "C14": check_C14,
-          "C09": check_C09, "C10": check_C10, "C11": check_C11, "C12": check_C12, "C13": check_C13, "C16": check_C16, "C17": check_C17, "C20": check_C20}
+          "C09": check_C09, "C10": check_C10, "C11": check_C11, "C12": check_C12, "C13": check_C13, "C15": check_C15, "C16": check_C16, "C17": check_C17, "C20": check_C20}
 
 
 def replay(prop, path):
